@@ -444,6 +444,14 @@ fn constants<B: Fld>(run: &Run) {
 }
 
 fn all<B: Fld>(run: &Run) {
+    if std::env::var("VERIF_STAGE").as_deref() == Ok("miri") {
+        // the interpreter is ~4 orders of magnitude slower: constants, conversions (they contain
+        // the slice reinterpretation casts) and a few hundred programs only
+        constants::<B>(run);
+        programs::<B>(run, 150);
+        conversions::<B>(run, 60);
+        return;
+    }
     constants::<B>(run);
     boundary_pairs::<B>(run);
     let slow = if B::MODULUS_BITS > 64 { 8 } else { 1 };
